@@ -12,7 +12,8 @@ RULE = ("scripts of read outcomes over an alphabet of 38 REAL Go error values (b
         "asynchronous or no cancellation; drained or not), error bursts beyond the channel buffer, runs of cap-1 / cap / "
         "cap+1 / 2.5 cap unknown read errors with no frame between them (transients interleaved, consumer receiving) "
         "followed by frames; the REAL afpacket.Source on lo of a private netns closed before / while receiving with the "
-        "context live, idle, under traffic, and the value it returns once closed played through the mock; non-trivial = at "
+        "context live, idle, under traffic, on a veth whose link is set down while receiving (judged by the class of the "
+        "value gopacket's own handle returns), and the value it returns once closed played through the mock; non-trivial = at "
         "least one fault or processor error in the script; distinct by (script, cancellation, consumer)")
 
 CODES = {1: "frames handed to the processor differ from the model", 2: "errors on the channel differ from the model",
@@ -201,13 +202,32 @@ def spec_on_impl(o, alpha):
 
 def source_spec(o):
     """The REAL afpacket.Source on lo read by the real receiver. Returns None or (key, reason)."""
-    errs = "; ".join("%s x%d%s" % (e["name"] or repr(e["text"]), e["count"], " (after Close)" if e["after_close"] else "")
+    errs = "; ".join("%s x%d%s" % (e["name"] or repr(e["text"]), e["count"], (" (after the link went down)" if o.get("link_down") else " (after Close)") if e["after_close"] else "")
                      for e in o["read_errors"]) or "none"
     what = "real afpacket.Source on lo, %s, %s" % (
         "UDP traffic every 2 ms" if o["traffic"] else "no traffic",
         "closed before the receiver starts" if o["closed_at_ms"] == 0 else
         "closed after %d ms with the context NOT cancelled" % o["closed_at_ms"] if o["closed_at_ms"] > 0 else
         "context cancelled after %d ms" % o["cancel_at_ms"])
+    if o.get("link_down"):
+        lib = o.get("control_err") or repr(o.get("control_text", ""))
+        if not o.get("control_err") and not o.get("control_text"):
+            return None       # the library reported nothing special for the downed link: nothing to judge
+        allowed = o.get("control_allowed") or "u"
+        what = ("real afpacket.Source on a veth, receiver running, link set down after 300 ms: gopacket's own handle on the "
+                "same interface returns %s (%s)" % (lib, " or ".join(WORDS[a] for a in allowed)))
+        if o.get("reported_before", 0) > 0:
+            return ("source-error-reported", "%s; %d errors were reported while the link was still healthy and quiet: %s" % (
+                what, o["reported_before"], o["reported_examples"][:2]))
+        if allowed == "u" and o.get("reported_after", 0) < 2:
+            return ("poll-failure-not-reported",
+                    "%s, i.e. an unknown failure that must be reported once per failed read while reading continues (the model "
+                    "classifies %s as Unknown); the Source returned %s in %d read calls after the link went down and the "
+                    "receiver reported %d error(s) in %d ms" % (what, lib, errs, o.get("reads_after", 0),
+                                                                o.get("reported_after", 0), o["waited_ms"]))
+        if not o["ended"]:
+            return ("hang", "%s: the error channel is not closed %d ms after the cancellation" % (what, o["waited_ms"]))
+        return None
     if not o["ended"]:
         if o["closed_at_ms"] >= 0:
             return ("closed-source-keeps-reading",
